@@ -321,6 +321,46 @@ func c03Gen(r *RNG, tier string) []json.RawMessage {
 		}
 		add(TableSpec{Rows: rows}, []DecSpec{{Name: "ascii-simple"}})
 	}
+	// hand-written decorations that are never Populate()d (any subset of the
+	// vertical pieces, rules only, corners only) on tables without columns,
+	// with zero-cell rows, with one and two columns: outside C03's statement,
+	// inside C09's (c09_text_any_decoration); here model = implementation
+	{
+		var hand []DecSpec
+		for m := 1; m < 8; m++ {
+			f := map[string]string{}
+			if m&1 != 0 {
+				f["VHeader"] = "#"
+			}
+			if m&2 != 0 {
+				f["VBodyBorder"] = "!"
+			}
+			if m&4 != 0 {
+				f["VBodyInner"] = "|"
+			}
+			hand = append(hand, DecSpec{Custom: true, NoPopulate: true, Fields: f})
+		}
+		hand = append(hand,
+			DecSpec{Custom: true, NoPopulate: true, Fields: map[string]string{"HOuter": "=", "HRule": "-"}},
+			DecSpec{Custom: true, NoPopulate: true, Fields: map[string]string{"TopLeft": "/", "BottomRight": "/", "CrossPiece": "+"}},
+			DecSpec{Custom: true, NoPopulate: true, Base: "ascii-simple", Fields: map[string]string{"VBodyBorder": ""}},
+			DecSpec{Custom: true, NoPopulate: true, Base: "utf8-light", Fields: map[string]string{"VHeader": "", "HOuter": ""}})
+		h0 := []ItemSpec{}
+		h1 := []ItemSpec{Str("h")}
+		h2 := []ItemSpec{Str("h"), Str("日本")}
+		for _, ts := range []TableSpec{
+			{Rows: []RowSpec{{Cells: []ItemSpec{}}}},
+			{Rows: []RowSpec{{Sep: true}, {Cells: []ItemSpec{}, How: 2}, {Sep: true}}},
+			{Header: &h0},
+			{Header: &h0, Rows: []RowSpec{{Cells: []ItemSpec{}}, {Cells: []ItemSpec{}, How: 1}}},
+			{},
+			{Header: &h1, Rows: []RowSpec{{Cells: []ItemSpec{}}, {Cells: []ItemSpec{Str("a\nb")}}}},
+			{Rows: []RowSpec{{Cells: []ItemSpec{Str("x")}}}},
+			{Header: &h2, Rows: []RowSpec{{Cells: []ItemSpec{Str("a")}}, {Sep: true}, {Cells: []ItemSpec{Str("b"), Str("c\nd")}}}},
+		} {
+			add(ts, hand)
+		}
+	}
 	// separators first / last / consecutive with a header longer than the body
 	for i := 0; i < 12; i++ {
 		h := []ItemSpec{textItem(r), textItem(r), textItem(r), textItem(r)}
